@@ -291,3 +291,68 @@ theorem detectWebsite_isSome_iff (U : UEnv) (text : CPs) :
       | some t => rfl
 
 end Pcfg.Detect
+
+namespace Pcfg.Detect
+open Generated.Tables
+
+theorem findSub_isSome_iff (s pat : CPs) : (findSub s pat).isSome = true ↔ ∃ k, OccursAt s pat k := by
+  constructor
+  · intro h
+    cases hr : findSub s pat with
+    | none => rw [hr] at h; cases h
+    | some j => exact ⟨j, (findSub_first s pat j hr).1⟩
+  · rintro ⟨k, hk⟩
+    cases hr : findSub s pat with
+    | none => exact (findSub_none s pat hr k hk).elim
+    | some j => rfl
+
+/-- **`detect_email` as a whole**: an e-mail address is detected in a string exactly when, in its lower-cased working copy, the *first*
+occurrence of some top-level domain of the table has an `@` somewhere in front of its end -/
+theorem detectEmail_isSome_iff (U : UEnv) (text : CPs) :
+    (detectEmail U text).isSome = true ↔
+      ∃ tld ∈ tldList, ∃ e0, findSub (U.lowerS text) tld = some e0 ∧
+        ∃ m, OccursAt ((U.lowerS text).take (e0 + tld.length)) [cpOf '@'] m := by
+  unfold detectEmail
+  simp only
+  split
+  · next hpre =>
+    constructor
+    · intro h; cases h
+    · rintro ⟨tld, hm, e0, he0, m, hocc⟩
+      exfalso
+      have hdot : cpOf '.' ∈ U.lowerS text := by
+        have h0 := occursAt_get _ tld e0 (findSub_first _ _ _ he0).1 0 (tld_ne_nil tld hm)
+        rw [tld_head_dot tld hm, Nat.add_zero] at h0
+        exact List.mem_of_getElem? h0
+      have hat : cpOf '@' ∈ U.lowerS text := by
+        have h0 := occursAt_get _ [cpOf '@'] m hocc 0 (by simp)
+        simp only [Nat.add_zero, List.getElem?_cons_zero] at h0
+        exact List.mem_of_mem_take (List.mem_of_getElem? h0)
+      simp only [Bool.or_eq_true, Bool.not_eq_true', List.contains_eq_mem, decide_eq_false_iff_not] at hpre
+      cases hpre with
+      | inl h => exact h hdot
+      | inr h => exact h hat
+  · rw [List.findSome?_isSome_iff]
+    constructor
+    · rintro ⟨tld, hm, hs⟩
+      refine ⟨tld, hm, ?_⟩
+      cases he : findSub (U.lowerS text) tld with
+      | none => rw [he] at hs; cases hs
+      | some e0 =>
+        rw [he] at hs
+        simp only at hs
+        refine ⟨e0, rfl, ?_⟩
+        apply (findSub_isSome_iff _ _).1
+        cases hm2 : findSub ((U.lowerS text).take (e0 + tld.length)) [cpOf '@'] with
+        | none => rw [hm2] at hs; cases hs
+        | some m => rfl
+    · rintro ⟨tld, hm, e0, he0, hex⟩
+      refine ⟨tld, hm, ?_⟩
+      rw [he0]
+      simp only
+      have := (findSub_isSome_iff _ _).2 hex
+      cases hm2 : findSub ((U.lowerS text).take (e0 + tld.length)) [cpOf '@'] with
+      | none => rw [hm2] at this; cases this
+      | some m => rfl
+
+end Pcfg.Detect
